@@ -54,7 +54,7 @@ def match_known(fail, known):
 
 
 def run(pid, tier, profile="mixed", own=None, nops=None, streams_per_cfg=None, extra_streams=None,
-        technique_note="", k3_programs=None, tsan_modes=None, extra_props=(), phases=()):
+        technique_note="", k3_programs=None, tsan_modes=None, extra_props=(), phases=(), k3_only_own=False):
     own = own or {pid}
     res = C.Result(pid, tier)
     rng = random.Random(C.seed() * 1000003 + sum(ord(x) for x in pid))
@@ -176,6 +176,10 @@ def run(pid, tier, profile="mixed", own=None, nops=None, streams_per_cfg=None, e
         out3 = k3.explore(tier, C.seed(), programs=set(k3_programs), with_traces=False)
         for b in out3["build_errors"]:
             res.add_broken("K3 harness does not compile against /repo (%s)" % b["config"], b["log"])
+        if k3_only_own:
+            # only the failures that concern this property (k3check.classify), e.g. dropped resize requests for C10
+            import k3check
+            out3["failures"] = [f for f in out3["failures"] if pid in k3check.classify(f["why"])]
         for f in out3["failures"][:3]:
             res.add_failing(f)
         if out3["failures"] and not [b for b in res.broken if "K3" in b["what"]]:
